@@ -1367,6 +1367,326 @@ theorem numSysLinCfgF_false_eq_rp (s : EqSystem) (prec : List Bool) (small : ℝ
       | error e => rfl
       | ok qs => rfl
 
+/-! ## The decidable reducer certificate (rational systems) is sound -/
+
+def castL (l : List Rat) : List ℝ := l.map fun (q : Rat) => (q : ℝ)
+def castM (m : List (List Rat)) : List (List ℝ) := m.map castL
+
+theorem castL_dotQ (r v : List Rat) : ((dotQ r v : Rat) : ℝ) = dotR (castL r) (castL v) := by
+  induction r generalizing v with
+  | nil => simp [dotQ, dotR, castL]
+  | cons a as ih =>
+    cases v with
+    | nil => simp [dotQ, dotR, castL]
+    | cons b bs =>
+      have := ih bs
+      simp only [dotQ, dotR, castL] at this ⊢
+      simp only [List.zipWith_cons_cons, List.sum_cons, List.map_cons]
+      push_cast
+      rw [← this]
+      push_cast
+      rfl
+
+theorem castL_add (u v : List Rat) :
+    castL (List.zipWith (· + ·) u v) = List.zipWith (· + ·) (castL u) (castL v) := by
+  induction u generalizing v with
+  | nil => simp [castL]
+  | cons a as ih =>
+    cases v with
+    | nil => simp [castL]
+    | cons b bs =>
+      have := ih bs
+      simp only [castL] at this ⊢
+      simp only [List.zipWith_cons_cons, List.map_cons, this]
+      push_cast
+      rfl
+
+theorem castL_smul (w : Rat) (r : List Rat) : castL (r.map (w * ·)) = (castL r).map ((w : ℝ) * ·) := by
+  simp only [castL, List.map_map]
+  apply List.map_congr_left
+  intro x _
+  simp
+
+theorem castL_lincombQ (w : List Rat) (A : List (List Rat)) (n : Nat) :
+    castL (lincombQ w A n) = lincomb (castL w) (castM A) n := by
+  induction w generalizing A with
+  | nil => simp [lincombQ, lincomb, castL, castM]
+  | cons x ws ih =>
+    cases A with
+    | nil => simp [lincombQ, lincomb, castL, castM]
+    | cons r rs =>
+      have h := ih rs
+      have e1 : lincombQ (x :: ws) (r :: rs) n = List.zipWith (· + ·) (r.map (x * ·)) (lincombQ ws rs n) := rfl
+      have e2 : lincomb (castL (x :: ws)) (castM (r :: rs)) n
+          = List.zipWith (· + ·) ((castL r).map ((x : ℝ) * ·)) (lincomb (castL ws) (castM rs) n) := rfl
+      rw [e1, e2, castL_add, castL_smul, h]
+
+theorem combosOk_sound (P A : List (List Rat)) (b : List Rat) (n : Nat) (A' : List (List Rat)) (b' : List Rat)
+    (h : combosOk P A b n A' b' = true) :
+    ∀ rb ∈ (castM A').zip (castL b'), IsRowCombo (castM A) (castL b) n rb.1 rb.2 := by
+  induction A' generalizing b' P with
+  | nil => simp [castM]
+  | cons row rows ih =>
+    cases b' with
+    | nil => simp [castL]
+    | cons β βs =>
+      cases P with
+      | nil => simp [combosOk] at h
+      | cons w ws =>
+        simp only [combosOk, Bool.and_eq_true, beq_iff_eq] at h
+        obtain ⟨⟨hrow, hβ⟩, hrest⟩ := h
+        intro rb hrb
+        simp only [castM, castL, List.map_cons, List.zip_cons_cons, List.mem_cons] at hrb
+        rcases hrb with rfl | hrb
+        · refine ⟨castL w, ?_, ?_⟩
+          · show castL row = _
+            rw [hrow, castL_lincombQ]
+          · show ((β : Rat) : ℝ) = _
+            rw [hβ, castL_dotQ]
+        · exact ih ws βs hrest rb hrb
+
+/-- a certificate that checks establishes the hypothesis `RowEquiv` of the rref theorems (for the rational system) -/
+theorem rowEquivCert_sound (n : Nat) (P L A : List (List Rat)) (b : List Rat) (A' : List (List Rat)) (b' : List Rat)
+    (h : rowEquivCert n P L A b A' b' = true) : RowEquiv n (castM A) (castL b) (castM A') (castL b') := by
+  simp only [rowEquivCert, Bool.and_eq_true, beq_iff_eq, List.all_eq_true] at h
+  obtain ⟨⟨⟨⟨⟨h1, h2⟩, h3⟩, h4⟩, h5⟩, h6⟩ := h
+  exact {
+    len := by simp [castM, castL, h1]
+    len' := by simp [castM, castL, h2]
+    width := by
+      intro r hr
+      simp only [castM, List.mem_map] at hr
+      obtain ⟨r0, hr0, rfl⟩ := hr
+      simp [castL, h3 r0 hr0]
+    width' := by
+      intro r hr
+      simp only [castM, List.mem_map] at hr
+      obtain ⟨r0, hr0, rfl⟩ := hr
+      simp [castL, h4 r0 hr0]
+    fwd := combosOk_sound P A b n A' b' h5
+    bwd := combosOk_sound L A' b' n A b h6 }
+
+
+theorem ofInt_rat_cast (i : ℤ) : (((Num.ofInt i : Rat)) : ℝ) = (i : ℝ) := by
+  unfold Num.ofInt
+  split
+  · rename_i h
+    have h2 : ((i.natAbs : ℤ) : ℝ) = ((-i : ℤ) : ℝ) := by
+      congr 1; omega
+    rw [Int.cast_natCast] at h2
+    push_cast
+    rw [h2]; simp
+  · rename_i h
+    have h2 : ((i.toNat : ℤ) : ℝ) = (i : ℝ) := by
+      congr 1; omega
+    rw [Int.cast_natCast] at h2
+    push_cast
+    exact h2
+
+theorem castL_intRow (row : List ℤ) : castL (intRow row : List Rat) = (intRow row : List ℝ) := by
+  unfold castL intRow
+  rw [List.map_map]
+  apply List.map_congr_left
+  intro i _
+  simp only [Function.comp, ofInt_rat_cast, ofInt_real]
+
+theorem castM_intMat (B : List (List ℤ)) : castM (intMat B : List (List Rat)) = (intMat B : List (List ℝ)) := by
+  unfold castM intMat
+  rw [List.map_map]
+  apply List.map_congr_left
+  intro row _
+  exact castL_intRow row
+
+theorem castL_totalsQ (B : List (List ℤ)) (c0 : List Rat) :
+    castL (B.map fun row => dotQ (intRow row) c0) = B.map fun row => total row (castL c0) := by
+  unfold castL
+  rw [List.map_map]
+  apply List.map_congr_left
+  intro row _
+  simp only [Function.comp]
+  rw [castL_dotQ, castL_intRow, total_eq_dotR]
+  rfl
+
+/-- a checked certificate for the conservation block of `s` yields exactly the hypothesis `hP` of the rref theorems -/
+theorem preservCert_sound (s : EqSystem) (c0 : List Rat) (P L : List (List Rat)) (red : Reduced Rat)
+    (h : preservCert s c0 P L red = true) (p : List ℝ) (hp : initConcsOf s p = castL c0) :
+    RowEquiv s.ns (intMat (compMat s)) (totalsOf s p) (castM red.rA) (castL red.rb) := by
+  have := rowEquivCert_sound s.ns P L _ _ _ _ h
+  simp only [preservSystemQ] at this
+  rw [castM_intMat, castL_totalsQ] at this
+  rw [totalsOf, hp]
+  exact this
+
+/-! ## Certificate for the equilibrium block (log coordinates) -/
+
+/-- the column `E·λ` -/
+noncomputable def colOf (E : List (List Rat)) (lam : List ℝ) : List ℝ := (castM E).map fun r => dotR r lam
+
+theorem combosOkE_sound (P A E : List (List Rat)) (n m : Nat) (A' E' : List (List Rat)) (lam : List ℝ)
+    (hE : ∀ r ∈ E, r.length = m) (h : combosOkE P A E n m A' E' = true) :
+    ∀ rb ∈ (castM A').zip (colOf E' lam), IsRowCombo (castM A) (colOf E lam) n rb.1 rb.2 := by
+  induction A' generalizing E' P with
+  | nil => simp [castM]
+  | cons row rows ih =>
+    cases E' with
+    | nil => simp [colOf, castM]
+    | cons e es =>
+      cases P with
+      | nil => simp [combosOkE] at h
+      | cons w ws =>
+        simp only [combosOkE, Bool.and_eq_true, beq_iff_eq] at h
+        obtain ⟨⟨hrow, he⟩, hrest⟩ := h
+        intro rb hrb
+        simp only [castM, colOf, List.map_cons, List.zip_cons_cons, List.mem_cons] at hrb
+        rcases hrb with rfl | hrb
+        · refine ⟨castL w, ?_, ?_⟩
+          · show castL row = _
+            rw [hrow, castL_lincombQ]
+          · show dotR (castL e) lam = _
+            rw [he, castL_lincombQ, dotR_lincomb (castL w) (castM E) m lam (by
+              intro r hr
+              simp only [castM, List.mem_map] at hr
+              obtain ⟨r0, hr0, rfl⟩ := hr
+              simp [castL, hE r0 hr0])]
+            rfl
+        · exact ih ws es hrest rb hrb
+
+theorem equilCert_sound (n m : Nat) (P L A E A' E' : List (List Rat)) (lam : List ℝ)
+    (h : equilCert n m P L A E A' E' = true) :
+    RowEquiv n (castM A) (colOf E lam) (castM A') (colOf E' lam) := by
+  simp only [equilCert, Bool.and_eq_true, beq_iff_eq, List.all_eq_true] at h
+  obtain ⟨⟨⟨⟨⟨⟨⟨h1, h2⟩, h3⟩, h4⟩, h5⟩, h6⟩, h7⟩, h8⟩ := h
+  exact {
+    len := by simp [castM, colOf, h1]
+    len' := by simp [castM, colOf, h2]
+    width := by
+      intro r hr
+      simp only [castM, List.mem_map] at hr
+      obtain ⟨r0, hr0, rfl⟩ := hr
+      simp [castL, h3 r0 hr0]
+    width' := by
+      intro r hr
+      simp only [castM, List.mem_map] at hr
+      obtain ⟨r0, hr0, rfl⟩ := hr
+      simp [castL, h4 r0 hr0]
+    fwd := combosOkE_sound P A E n m A' E' lam h5 h7
+    bwd := combosOkE_sound L A' E' n m A E lam h6 h8 }
+
+/-! ## The constants certificate: `ln K = E·(ln p)` and positivity -/
+
+theorem zero_rat : (zero : Rat) = 0 := by simp [zero]
+theorem one_rat : (one : Rat) = 1 := by simp [one]
+
+theorem npow_rat (x : Rat) (n : ℕ) : Num.npow x n = x ^ n := by
+  induction n with
+  | zero => simp [Num.npow]
+  | succ k ih => simp [Num.npow, ih, pow_succ]
+
+theorem powInt_rat (x : Rat) (n : ℤ) : powInt x n = x ^ n := by
+  unfold powInt
+  split
+  · rename_i h
+    have hn : n = -((n.natAbs : ℕ) : ℤ) := by omega
+    rw [npow_rat, one_rat]
+    conv_rhs => rw [hn]
+    rw [zpow_neg, zpow_natCast, one_div]
+  · rename_i h
+    have hn : n = ((n.toNat : ℕ) : ℤ) := by omega
+    rw [npow_rat]
+    conv_rhs => rw [hn]
+    rw [zpow_natCast]
+
+theorem foldl_mul_rat (l : List Rat) (a : Rat) : l.foldl (· * ·) a = a * l.prod := by
+  induction l generalizing a with
+  | nil => simp
+  | cons x xs ih => simp [List.foldl_cons, ih, mul_assoc]
+
+theorem cast_prod_zpow (c : List Rat) (row : List ℤ) :
+    (((List.zipWith (fun (x : Rat) (n : ℤ) => x ^ n) c row).prod : Rat) : ℝ) = quotient (castL c) row := by
+  induction c generalizing row with
+  | nil => simp [quotient, castL]
+  | cons x xs ih =>
+    cases row with
+    | nil => simp [quotient, castL]
+    | cons n ns =>
+      have := ih ns
+      simp only [quotient, castL] at this ⊢
+      simp only [List.zipWith_cons_cons, List.prod_cons, List.map_cons]
+      rw [← this]
+      push_cast
+      rfl
+
+theorem cast_prodPowRow (c : List Rat) (row : List ℤ) :
+    ((prodPowRow c row : Rat) : ℝ) = quotient (castL c) row := by
+  unfold prodPowRow
+  rw [foldl_mul_rat, one_rat, one_mul]
+  have : List.zipWith powInt c row = List.zipWith (fun (x : Rat) (n : ℤ) => x ^ n) c row := by
+    congr 1
+    funext x n
+    exact powInt_rat x n
+  rw [this, cast_prod_zpow]
+
+/-- for positive bases `ln ∏ cⱼ^νⱼ = Σ νⱼ ln cⱼ` -/
+theorem log_quotient (c : List ℝ) (row : List ℤ) (hc : ∀ x ∈ c, 0 < x) :
+    Real.log (quotient c row) = total row (c.map Real.log) := by
+  have := exp_total row (c.map Real.log)
+  rw [map_exp_log hc] at this
+  rw [← this, Real.log_exp]
+
+theorem ksCert_sound (ps : List Nat) (E : List (List Int)) (ks : List Rat) (h : ksCert ps E ks = true) :
+    (castL ks).map Real.log = colOf (intMat E) (ps.map fun (p : Nat) => Real.log (p : ℝ)) := by
+  simp only [ksCert, Bool.and_eq_true, List.all_eq_true, decide_eq_true_eq, beq_iff_eq] at h
+  obtain ⟨hpos, hks⟩ := h
+  have hb : castL (basesQ ps) = ps.map fun (p : Nat) => (p : ℝ) := by
+    simp [castL, basesQ, List.map_map]
+  have hbpos : ∀ x ∈ ps.map (fun (p : Nat) => (p : ℝ)), 0 < x := by
+    intro x hx
+    simp only [List.mem_map] at hx
+    obtain ⟨p, hp, rfl⟩ := hx
+    exact_mod_cast hpos p hp
+  rw [hks, colOf, castM_intMat]
+  unfold castL intMat
+  rw [List.map_map, List.map_map, List.map_map]
+  apply List.map_congr_left
+  intro row _
+  simp only [Function.comp]
+  rw [cast_prodPowRow, hb, log_quotient _ _ hbpos, total_eq_dotR, List.map_map]
+  rfl
+theorem quotient_pos (c : List ℝ) (row : List ℤ) (hc : ∀ x ∈ c, 0 < x) : 0 < quotient c row := by
+  induction c generalizing row with
+  | nil => simp [quotient]
+  | cons x xs ih =>
+    cases row with
+    | nil => simp [quotient]
+    | cons n ns =>
+      have := ih ns (fun z hz => hc z (List.mem_cons_of_mem _ hz))
+      simp only [quotient] at this ⊢
+      simp only [List.zipWith_cons_cons, List.prod_cons]
+      exact mul_pos (zpow_pos (hc x List.mem_cons_self) n) this
+
+theorem ksCert_pos (ps : List Nat) (E : List (List Int)) (ks : List Rat) (h : ksCert ps E ks = true) :
+    ∀ k ∈ castL ks, 0 < k := by
+  simp only [ksCert, Bool.and_eq_true, List.all_eq_true, decide_eq_true_eq, beq_iff_eq] at h
+  obtain ⟨hpos, hks⟩ := h
+  intro k hk
+  rw [hks] at hk
+  simp only [castL, List.map_map, List.mem_map, Function.comp] at hk
+  obtain ⟨row, _, rfl⟩ := hk
+  rw [cast_prodPowRow]
+  apply quotient_pos
+  intro x hx
+  simp only [castL, basesQ, List.map_map, List.mem_map, Function.comp] at hx
+  obtain ⟨p, hp, rfl⟩ := hx
+  exact_mod_cast hpos p hp
+
+
+theorem four_rpow_neg_half : Real.rpow 4 (-1 / 2) = 1 / 2 := by
+  show (4 : ℝ) ^ ((-1 / 2 : ℝ)) = 1 / 2
+  have h4 : (4 : ℝ) = 2 ^ (2 : ℝ) := by norm_num
+  rw [h4, ← Real.rpow_mul (by norm_num : (0 : ℝ) ≤ 2)]
+  norm_num
+
+
 /-! ## Row operations -/
 
 theorem mulVec_eq_zero_iff_of_isUnit_det {m : ℕ} (M : Matrix (Fin m) (Fin m) ℝ) (hM : IsUnit M.det)
